@@ -112,3 +112,49 @@ func uniq(ss []string) []string {
 	}
 	return out
 }
+
+// findingDemo: a demonstration of a recorded defect on the real code (source under /verif/findings). The test itself
+// always passes and prints GVC-FINDING-PRESENT <id> ... while the defect shows.
+type findingDemo struct {
+	ID     string // e.g. "F6": listed in known_findings.json as obligation "demo:F6"
+	Src    string
+	PkgRel string
+	Run    string
+}
+
+type demoResult struct {
+	Demo    findingDemo
+	Present bool
+	Line    string
+	Output  string
+	Err     error
+}
+
+func (cc *checkCtx) runDemos(demos []findingDemo) []demoResult {
+	var out []demoResult
+	for _, d := range demos {
+		src := filepath.Join(cc.verifDir, "findings", d.Src)
+		pkgDir := filepath.Join(cc.repo, d.PkgRel)
+		dir := scratch()
+		ovFile := filepath.Join(dir, "ov_demo_"+sanitize(d.ID)+".json")
+		repl := map[string]string{filepath.Join(pkgDir, "zz_gvc_demo_test.go"): src}
+		for k, v := range cc.goOverlay {
+			repl[k] = v
+		}
+		os.WriteFile(ovFile, mustJSON(map[string]any{"Replace": repl}), 0o644)
+		cmd := exec.Command("go", "test", "-overlay", ovFile, "-vet=off", "-count=1", "-timeout", "120s", "-run", d.Run, "-v", ".")
+		cmd.Dir = pkgDir
+		cmd.Env = append(os.Environ(), "GOFLAGS=-mod=mod", "GOPROXY=off", "GOSUMDB=off", "GOTOOLCHAIN=local")
+		b, err := cmd.CombinedOutput()
+		r := demoResult{Demo: d, Output: truncate(string(b), 4000), Err: err}
+		for _, l := range strings.Split(string(b), "\n") {
+			l = strings.TrimSpace(l)
+			if strings.HasPrefix(l, "GVC-FINDING-PRESENT "+d.ID) {
+				r.Present = true
+				r.Line = l
+			}
+		}
+		out = append(out, r)
+	}
+	return out
+}
